@@ -18,10 +18,12 @@ from .core import Check, MachineryError
 from .graph import walk_edges
 from .tlc import printed_json, require_actions, run_tlc
 
-LABELS = {"L1": ["a", "k", "f"], "L2": ["a", "c"]}
-SPECS = {"L1": lambda v: [["a", v["a"]], ["k", v["k"], {"non-negative": True}], ["f", v["f"], {"vary": False}]],
+LABELS = {"L1": ["a", "k", "f", "ex"], "L2": ["a", "c"]}
+# e: an expression parameter that carries the non-negative flag (e.g. from a group default) and whose value may be negative: the history holds
+# its transformed value (NaN for a negative one); restoring must give the value of the EXPRESSION, not of the record
+SPECS = {"L1": lambda v: [["a", v["a"]], ["k", v["k"], {"non-negative": True}], ["f", v["f"], {"vary": False}], ["ex", {"expr": "$a * -1", "non-negative": True}]],
          "L2": lambda v: [["a", v["a"]], ["c", v["c"], {"min": -10.0, "max": 10.0}]]}
-VALS = {1: {"a": 1.5, "k": 0.25, "f": 3.0, "c": -0.5}, 2: {"a": -2.0, "k": 4.0, "f": 7.0, "c": 2.5}}
+VALS = {1: {"a": 1.5, "k": 0.25, "f": 3.0, "c": -0.5, "ex": -1.5}, 2: {"a": -2.0, "k": 4.0, "f": 7.0, "c": 2.5, "ex": 2.0}}
 
 
 def make(ls, v):
@@ -88,12 +90,12 @@ def run(tier: str, replay=None) -> int:
                 probe.set_from_history(h, k)
             got = [probe.get(l).value for l in LABELS[st["labels"]]]
             want = vec(st["labels"], r["v"])
-            if float(h.get_parameters(k)[0]) != float(r["it"]) or any(abs(a - b) > 1e-12 * max(1, abs(b)) for a, b in zip(got, want)):
+            if float(h.get_parameters(k)[0]) != float(r["it"]) or any(not (abs(a - b) <= 1e-12 * max(1, abs(b))) for a, b in zip(got, want)):
                 ok = False
                 chk.violation(f"ParamHistory: record content after {desc}", f"record {k}: iteration {h.get_parameters(k)[0]}, restores to {got}; specification iteration {r['it']}, values {want}", rep)
         got = [real.cur.get(l).value for l in LABELS[st["cur"]["ls"]]]
         want = vec(st["cur"]["ls"], st["cur"]["v"])
-        if [p.label for p in real.cur.all()] != LABELS[st["cur"]["ls"]] or any(abs(a - b) > 1e-12 * max(1, abs(b)) for a, b in zip(got, want)):
+        if [p.label for p in real.cur.all()] != LABELS[st["cur"]["ls"]] or any(not (abs(a - b) <= 1e-12 * max(1, abs(b))) for a, b in zip(got, want)):
             ok = False
             chk.violation(f"ParamHistory: current parameters after {desc}", f"current parameters {got}, specification {want}", rep)
         return ok
